@@ -23,6 +23,18 @@ Program items (JSON lists):
                          stays inside the block for the rest of its program
   ["gen_close", k, how]  ANOTHER thread / task resumes / closes / throws into that generator (the library refuses: a token
                          belongs to the context it was made in; whatever happens is caught), then reads its OWN value
+  ["arith", {..}]        (stream neg_state) an operation on the operands of a SLOT of the case (case["slots"][name] = spec of a
+                         histogram `a` with non-negative contents and of the way a histogram `neg` WITH NEGATIVE CONTENTS is
+                         derived from it):
+        {"mk": name, "g": b}                   build `a` and `neg` (adaptive classes: also `other` on another grid and
+                                               `oneg = other * (-1)`) and keep them for the rest of the run; normally inside a block
+        {"slot": name, "op": .., .., "g": b}   apply one operation to (copies of) the kept operands, anywhere: typically OUTSIDE,
+                                               after the block in which they were built has been left
+     "g" (fixed by the generator with exact arithmetic on the spec, re-derived by the oracle from the contents the implementation
+     reports): the step produces negative contents, so it is a gated operation -- an `arith` step of the schedule, accepted iff
+     the switch is on.  Steps with g false (re-arrangements such as copy / projection / slicing of existing negative contents,
+     arithmetic whose result is non-negative) are `free` steps: recorded, not presented to the model, judged only for what the
+     property pins (no negative contents may come out of an arithmetic operation outside; operands stay as they were).
 """
 from __future__ import annotations
 
@@ -37,6 +49,7 @@ import subprocess
 import sys
 import threading
 import warnings
+from fractions import Fraction
 
 import numpy as np
 
@@ -69,6 +82,15 @@ def gen_items(rng, depth=0, maxlen=4):
     return items
 
 
+def _dict_hows(items):
+    """the operations on kept operands of a program, at any depth"""
+    for it in items:
+        if it[0] == "arith" and isinstance(it[1], dict):
+            yield it[1]
+        elif it[0] == "with":
+            yield from _dict_hows(it[2])
+
+
 def form_of(it):
     return it[4] if len(it) > 4 else "with"
 
@@ -87,7 +109,11 @@ def linearize(items, atomic=False):
         elif it[0] == "read":
             acts.append([{"op": "read"}])
         elif it[0] == "arith":
-            acts.append([{"op": "arith", "how": it[1]}])
+            if isinstance(it[1], dict):
+                # an operation on kept operands: gated (produces negative contents) = `arith`, otherwise a `free` step
+                acts.append([{"op": "arith" if it[1].get("g") else "free", "how": it[1], "what": negop_name(it[1])}])
+            else:
+                acts.append([{"op": "arith", "how": it[1]}])
         elif it[0] == "spawn":
             acts.append([{"op": it[1], "child": it[2]}])
         elif it[0] == "reenter":
@@ -192,11 +218,546 @@ def leave_by_exception(raises):
     raise Boom()
 
 
+# ---------------------------------------------------------------- operands with negative contents (stream neg_state)
+# What the UNCHANGED library does outside a free-arithmetics block with a histogram `neg` whose negative contents were produced
+# inside an earlier block (measured on 80b127e, 1-D / N-d / transformed / adaptive alike):
+#   refused ("Cannot have negative frequencies."): every ARITHMETIC operation whose result has a negative content --
+#       a + neg + neg, neg + a + neg, x += neg, sum([..]), HistogramCollection(..).sum(), addition with adaptive re-binning,
+#       a - b / a -= b, neg * c / c * neg / neg *= c, neg / c, normalize() of mixed signs, the `frequencies = ..` setter, the
+#       constructor with negative frequencies.  These are the GATED operations below: the property pins them.
+#   passed through: copy(), set_dtype(), merge_bins() (sums of negatives included), Histogram2D.T, N-d slices that keep every axis,
+#       cumulative_frequencies; refused: 1-D slicing / index arrays, N-d integer indexing, projection() and accumulate() with a
+#       negative result, to_dict -> from_dict, to_json -> parse_json (they all go through the constructor).  Re-arrangements of
+#       EXISTING negative contents: the property does not say which of these must be refused, the library is not consistent, so
+#       they are recorded (tags rearr:*) and never judged for acceptance.
+#   accepted although the result is NEW negative contents: h.fill(x, weight=-w) and h.fill_n(.., weights=-w) (no gate at all in
+#       fill).  See ENABLE_FILL_NEGATIVE_WEIGHT.
+ENABLE_FILL_NEGATIVE_WEIGHT = False     # `Histogram1D([0,1,2,3],[2,1,3]).fill(0.5, weight=-1)` x5 outside any block -> contents
+                                        # [-3, 1, 3], no error, config.free_arithmetics False (likewise fill_n, N-d, adaptive):
+                                        # negative contents produced and accepted while the switch is off.  Reported, kept out
+                                        # of the generator (as a USE outside; as a way to BUILD `neg` inside a block it is used).
+
+NEG_CLASSES_1D = ["h1", "h1f", "radial", "ad1"]
+NEG_CLASSES = ["h1", "h1", "h1f", "h1f", "h2", "h2", "h2", "h3", "radial", "polar", "polar", "ad1", "ad1", "ad2", "ad2"]
+NEG_ADAPTIVE = ("ad1", "ad2")
+NEG_FILLABLE = ("h1", "h1f", "h2", "h3", "ad1", "ad2")          # fill() of a transformed class takes cartesian points
+GATED_BUILDS = ["mul_m1", "sub_2a", "imul", "div_neg", "arr_add", "arr_sub", "setter", "ctor"]
+FREE_BUILDS = ["fill_neg", "fill_n_neg"]                        # accepted by the unchanged library with the switch off as well
+GATED_NEGOPS = ("add", "sub", "mul", "div", "normalize", "setter", "ctor", "fill_neg")
+REARR_NEGOPS = ("copy", "set_dtype", "merge_bins", "projection", "slice", "index", "transpose")
+
+
+def fr(x):
+    if isinstance(x, Fraction):
+        return x
+    if isinstance(x, str):
+        return Fraction(x)
+    if isinstance(x, (int, np.integer)):
+        return Fraction(int(x))
+    return Fraction(float(x))
+
+
+def fs(x):
+    f = fr(x)
+    return str(f.numerator) if f.denominator == 1 else f"{f.numerator}/{f.denominator}"
+
+
+def negop_name(how):
+    if "mk" in how:
+        return "mk"
+    return how["op"] + (":" + how["how"] if "how" in how else "")
+
+
+def describe_negop(how):
+    op = how["op"]
+    if op == "add":
+        t = how["terms"]
+        return {"binary": " + ".join(t), "iadd": f"x = {t[0]}.copy(); " + "; ".join(f"x += {n}" for n in t[1:]),
+                "sum": "sum([" + ", ".join(t) + "])", "coll": "HistogramCollection(" + ", ".join(t) + ").sum()"}[how["how"]]
+    if op == "sub":
+        return f"{how['x']} - {how['y']}" if how["how"] == "binary" else f"x = {how['x']}.copy(); x -= {how['y']}"
+    if op == "mul":
+        return {"mul": f"{how['x']} * {how['c']}", "rmul": f"{how['c']} * {how['x']}", "imul": f"x = {how['x']}.copy(); x *= {how['c']}"}[how["how"]]
+    if op == "div":
+        return {"div": f"{how['x']} / {how['c']}", "idiv": f"x = {how['x']}.copy(); x /= {how['c']}"}[how["how"]]
+    if op == "normalize":
+        return f"{how['x']}.normalize(inplace={how['inplace']}, percent={how['percent']})"
+    if op == "setter":
+        return "x = a.copy(); x.frequencies = neg.frequencies"
+    if op == "ctor":
+        return "type(a)(<bins of a>, frequencies=neg.frequencies)"
+    if op == "fill_neg":
+        return f"x = a.copy(); x.fill(<centre of cell {how['cell']}>, weight=-{how['w']}) x{how['times']}"
+    return f"neg: {op}"
+
+
+# ---- exact contents: an operand is {"f": [Fraction] (C order), "shape": [..], "lo": [first bin of each axis, in bin widths]}
+def op_cells(o):
+    out = {}
+    for idx, v in zip(itertools.product(*[range(n) for n in o["shape"]]), o["f"]):
+        out[tuple(i + l for i, l in zip(idx, o["lo"]))] = v
+    return out
+
+
+def same_grid(x, y):
+    return x["shape"] == y["shape"] and x["lo"] == y["lo"]
+
+
+def cells_add(x, y, sign=1):
+    """contents of x + sign * y on the union of the two grids (adaptive re-binning covers the whole range: empty bins are 0)"""
+    out = dict(x)
+    for k, v in y.items():
+        out[k] = out.get(k, Fraction(0)) + sign * v
+    return out
+
+
+def any_negative(cells):
+    return any(v < 0 for v in cells.values())
+
+
+def spec_operands(spec):
+    """the operands the spec describes, computed without the library"""
+    F = [fr(v) for v in spec["freq"]]
+    A = [fr(v) for v in spec.get("arr", [])]
+    b = spec["build"]
+    if b in ("mul_m1", "sub_2a"):
+        N = [-v for v in F]
+    elif b == "imul":
+        N = [-v * fr(spec["k"]) for v in F]
+    elif b == "div_neg":
+        N = [-v / fr(spec["k"]) for v in F]
+    elif b == "arr_add":
+        N = [v + a for v, a in zip(F, A)]
+    elif b == "arr_sub":
+        N = [v - a for v, a in zip(F, A)]
+    elif b in ("setter", "ctor"):
+        N = list(A)
+    else:       # fill_neg / fill_n_neg
+        N = list(F)
+        N[spec["cell"]] -= fr(spec["w"]) * spec["times"]
+    zero = [0] * len(spec["shape"])
+    ops = {"a": {"f": F, "shape": list(spec["shape"]), "lo": zero}, "neg": {"f": N, "shape": list(spec["shape"]), "lo": zero}}
+    if spec["cls"] in NEG_ADAPTIVE:
+        O = [fr(v) for v in spec["ofreq"]]
+        ops["other"] = {"f": O, "shape": list(spec["oshape"]), "lo": list(spec["shift"])}
+        ops["oneg"] = {"f": [-v for v in O], "shape": list(spec["oshape"]), "lo": list(spec["shift"])}
+    return ops
+
+
+def snap_operands(snaps):
+    """the same structure from what the implementation reported"""
+    base = snaps["a"]["lo"] if "a" in snaps else None
+    out = {}
+    for k, s in snaps.items():
+        lo = [int(fr(x) - fr(y)) for x, y in zip(s["lo"], base)] if base is not None and len(base) == len(s["lo"]) else [0] * len(s["shape"])
+        out[k] = {"f": [fr(v) for v in s["f"]], "shape": list(s["shape"]), "lo": lo}
+    return out
+
+
+def expect_negop(how, ops):
+    """what the operation computes, exactly: {"neg": the result (or a partial result on the way) has a negative content
+    (None = not determined), "keep": the contents an in-place target must still hold when the operation is refused (or None)}"""
+    op = how["op"]
+
+    def get(n):
+        if n == "a2":
+            a = ops["a"]
+            return {"f": [2 * v for v in a["f"]], "shape": a["shape"], "lo": a["lo"]}
+        return ops[n]
+    if op == "add":
+        terms = [get(n) for n in how["terms"]]
+        acc = op_cells(terms[0])
+        regrid = not all(same_grid(terms[0], t) for t in terms[1:])
+        if how["how"] == "coll":
+            # ONE operation of the collection: only its result is pinned (the unchanged library adds from the left and refuses a
+            # negative partial sum as well; a case whose partial sums only are negative is not judged, and not generated)
+            partial = False
+            for t in terms[1:]:
+                acc = cells_add(acc, op_cells(t))
+                partial = partial or any_negative(acc)
+            return {"neg": True if any_negative(acc) else (None if partial else False), "keep": None,
+                    "partial": [fs(v) for _, v in sorted(acc.items())]}
+        # binary chains, in-place chains and sum([..]) are sequences of separate `+` / `+=` operations, each with its own result
+        for t in terms[1:]:
+            nxt = cells_add(acc, op_cells(t))
+            if any_negative(nxt):
+                return {"neg": True, "keep": None if regrid else acc, "partial": [fs(v) for _, v in sorted(nxt.items())]}
+            acc = nxt
+        return {"neg": False, "keep": None}
+    if op == "sub":
+        x, y = get(how["x"]), get(how["y"])
+        if not same_grid(x, y):
+            return {"neg": None, "keep": None}
+        return {"neg": any_negative(cells_add(op_cells(x), op_cells(y), -1)), "keep": op_cells(x)}
+    if op in ("mul", "div"):
+        x, c = get(how["x"]), fr(how["c"])
+        if op == "div" and c == 0:
+            return {"neg": None, "keep": None}
+        vals = [v * c if op == "mul" else v / c for v in x["f"]]
+        return {"neg": any(v < 0 for v in vals), "keep": op_cells(x)}
+    if op == "normalize":
+        x = get(how["x"])
+        total = sum(x["f"])
+        if total == 0:
+            return {"neg": None, "keep": None}
+        return {"neg": any(v / total < 0 for v in x["f"]), "keep": op_cells(x)}
+    if op in ("setter", "ctor"):
+        return {"neg": any(v < 0 for v in ops["neg"]["f"]), "keep": op_cells(ops["a"]) if op == "setter" else None}
+    if op == "fill_neg":
+        a = ops["a"]
+        return {"neg": a["f"][how["cell"]] - fr(how["w"]) * how["times"] < 0, "keep": None}
+    return {"neg": False, "keep": None}     # re-arrangements create no new contents: never gated
+
+
+# ---- the real objects
+def _values(spec, flat, shape):
+    integral = spec["cls"] != "h1f" and all(fr(v).denominator == 1 for v in flat)
+    return np.array([int(fr(v)) if integral else float(fr(v)) for v in flat], dtype=np.int64 if integral else np.float64).reshape(shape)
+
+
+def make_hist(spec, flat, which="a"):
+    from physt.binnings import FixedWidthBinning
+    from physt.histogram1d import Histogram1D
+    from physt.histogram_nd import Histogram2D, HistogramND
+    from physt.special_histograms import PolarHistogram, RadialHistogram
+    cls = spec["cls"]
+    shape = spec["oshape"] if which == "other" else spec["shape"]
+    lo = spec["shift"] if which == "other" else [0] * len(shape)
+    vals = _values(spec, flat, shape)
+    if cls in ("h1", "h1f"):
+        return Histogram1D(list(range(shape[0] + 1)), vals)
+    if cls == "radial":
+        return RadialHistogram(list(range(shape[0] + 1)), vals)
+    if cls == "h2":
+        return Histogram2D([list(range(n + 1)) for n in shape], vals)
+    if cls == "h3":
+        return HistogramND([list(range(n + 1)) for n in shape], vals, dimension=len(shape))
+    if cls == "polar":
+        return PolarHistogram([list(range(shape[0] + 1)), np.linspace(0, 2 * np.pi, shape[1] + 1)], vals)
+    bins = [FixedWidthBinning(bin_width=1, bin_count=n, min=l, adaptive=True) for n, l in zip(shape, lo)]
+    if cls == "ad1":
+        return Histogram1D(bins[0], vals)
+    if cls == "ad2":
+        return Histogram2D(bins, vals)
+    raise RuntimeError("unknown class " + cls)
+
+
+def cell_centre(h, cell):
+    idx = np.unravel_index(cell, h.shape)
+    if h.ndim == 1:
+        return float(h.bin_centers[idx[0]])
+    return [float(h.get_bin_centers(ax)[i]) for ax, i in enumerate(idx)]
+
+
+def build_operands(spec):
+    """`a`, and `neg` derived from it by an operation that yields negative contents (refused unless the switch is on, except
+    the two fill builds)"""
+    a = make_hist(spec, spec["freq"])
+    b = spec["build"]
+    shape = spec["shape"]
+    if b == "mul_m1":
+        neg = a * (-1)
+    elif b == "sub_2a":
+        neg = a - 2 * a
+    elif b == "imul":
+        neg = a.copy()
+        neg *= -spec["k"]
+    elif b == "div_neg":
+        neg = a / (-spec["k"])
+    elif b == "arr_add":
+        neg = a + _values(spec, spec["arr"], shape)
+    elif b == "arr_sub":
+        neg = a - _values(spec, spec["arr"], shape)
+    elif b == "setter":
+        neg = a.copy()
+        neg.frequencies = _values(spec, spec["arr"], shape)
+    elif b == "ctor":
+        neg = make_hist(spec, spec["arr"])
+    elif b == "fill_neg":
+        neg = a.copy()
+        for _ in range(spec["times"]):
+            neg.fill(cell_centre(a, spec["cell"]), weight=-spec["w"])
+    elif b == "fill_n_neg":
+        neg = a.copy()
+        neg.fill_n([cell_centre(a, spec["cell"])] * spec["times"], weights=[-spec["w"]] * spec["times"])
+    else:
+        raise RuntimeError("unknown build " + b)
+    ops = {"a": a, "neg": neg}
+    if spec["cls"] in NEG_ADAPTIVE:
+        ops["other"] = make_hist(spec, spec["ofreq"], "other")
+        ops["oneg"] = ops["other"] * (-1)
+    return ops
+
+
+def snap_hist(h):
+    bins = [np.asarray(h.bins).reshape(-1, 2)[0]] if h.ndim == 1 else [np.asarray(b).reshape(-1, 2)[0] for b in h.bins]
+    return {"f": [fs(v) for v in np.asarray(h.frequencies).ravel().tolist()], "e2": [fs(v) for v in np.asarray(h.errors2).ravel().tolist()],
+            "shape": [int(n) for n in h.shape], "dtype": str(h.dtype), "lo": [fs(float(b[0])) for b in bins], "cls": type(h).__name__}
+
+
+def private_build(spec):
+    """the operands of a slot nobody has built (a shrunk case, another thread's slot): built with the switch SET in a throw-away
+    copy of the context, which the calling context never sees"""
+    def f():
+        from physt.config import config
+        config.free_arithmetics = True
+        return build_operands(spec)
+    return contextvars.copy_context().run(f)
+
+
+def apply_negop(how, ops, spec, holder):
+    from physt.histogram_collection import HistogramCollection
+    op = how["op"]
+
+    def get(n):
+        return ops["a"] + ops["a"] if n == "a2" else ops[n]
+
+    def target(h):
+        holder["target"] = h.copy()
+        return holder["target"]
+    if op == "add":
+        terms = [get(n) for n in how["terms"]]
+        h = how["how"]
+        if h == "binary":
+            r = terms[0]
+            for t in terms[1:]:
+                r = r + t
+            return r
+        if h == "iadd":
+            x = target(terms[0])
+            for t in terms[1:]:
+                x += t
+            return x
+        if h == "sum":
+            return sum(terms)
+        return HistogramCollection(*terms).sum()
+    if op == "sub":
+        x, y = get(how["x"]), get(how["y"])
+        if how["how"] == "binary":
+            return x - y
+        x = target(x)
+        x -= y
+        return x
+    if op == "mul":
+        x, c = get(how["x"]), how["c"]
+        if how["how"] == "mul":
+            return x * c
+        if how["how"] == "rmul":
+            return c * x
+        x = target(x)
+        x *= c
+        return x
+    if op == "div":
+        x, c = get(how["x"]), how["c"]
+        if how["how"] == "div":
+            return x / c
+        x = target(x)
+        x /= c
+        return x
+    if op == "normalize":
+        x = get(how["x"])
+        if how["inplace"]:
+            x = target(x)
+        return x.normalize(inplace=how["inplace"], percent=how["percent"])
+    if op == "setter":
+        x = target(ops["a"])
+        x.frequencies = np.array(ops["neg"].frequencies)
+        return x
+    if op == "ctor":
+        return make_hist(spec, np.asarray(ops["neg"].frequencies).ravel().tolist())
+    if op == "fill_neg":
+        x = target(ops["a"])
+        for _ in range(how["times"]):
+            x.fill(cell_centre(x, how["cell"]), weight=-how["w"])
+        return x
+    neg = ops["neg"]
+    if op == "copy":
+        return neg.copy()
+    if op == "set_dtype":
+        x = neg.copy()
+        x.set_dtype(np.float64)
+        return x
+    if op == "merge_bins":
+        return neg.merge_bins(2) if neg.ndim == 1 else neg.merge_bins(2, axis=how.get("axis", 0))
+    if op == "projection":
+        return neg.projection(how.get("axis", 0))
+    if op == "slice":
+        return neg[0:2] if neg.ndim == 1 else neg[0:1]
+    if op == "index":
+        return neg[[0, neg.shape[0] - 1]] if neg.ndim == 1 else neg[0]
+    if op == "transpose":
+        return neg.T
+    raise RuntimeError("unknown operation " + op)
+
+
+def neg_step(how, env):
+    """one step on kept operands; everything the oracle needs is reported under `_d` (not compared with the model)"""
+    from physt.config import config
+    specs, slots = env["specs"], env["slots"]
+    if "mk" in how:
+        name = how["mk"]
+        try:
+            with warnings.catch_warnings():
+                warnings.simplefilter("ignore")
+                ops = build_operands(specs[name])
+        except (TypeError, ValueError) as e:
+            slots[name] = None
+            return {"accepted": False, "_d": {"mk": name, "refusal": type(e).__name__}}
+        slots[name] = ops
+        return {"accepted": True, "_d": {"mk": name, "built": {k: snap_hist(v) for k, v in ops.items()}}}
+    name = how["slot"]
+    ops = slots.get(name)
+    if ops is None:
+        with warnings.catch_warnings():
+            warnings.simplefilter("ignore")
+            ops = slots[name] = private_build(specs[name])
+    d = {"how": how, "cls": specs[name]["cls"], "before": {k: snap_hist(v) for k, v in ops.items()}}
+    holder = {}
+    res = None
+    try:
+        with warnings.catch_warnings():
+            warnings.simplefilter("ignore")
+            res = apply_negop(how, ops, specs[name], holder)
+        accepted = True
+    except (TypeError, ValueError) as e:
+        accepted = False
+        d["refusal"] = type(e).__name__
+    if accepted:
+        d["result"] = snap_hist(res) if hasattr(res, "frequencies") and hasattr(res, "bins") else None
+    d["after"] = {k: snap_hist(v) for k, v in ops.items()}
+    if holder.get("target") is not None:
+        d["target"] = snap_hist(holder["target"])
+    d["flag"] = bool(config.free_arithmetics)
+    return {"accepted": accepted, "_d": d}
+
+
+def arith_obs(how, env):
+    if isinstance(how, dict):
+        return neg_step(how, env)
+    return {"accepted": do_arith(how)}
+
+
+# ---- generation of slots and of operations on them
+def gen_spec(rng, cls=None, build=None):
+    cls = cls or rng.choice(NEG_CLASSES)
+    if cls in ("h1", "h1f", "radial", "ad1"):
+        shape = [rng.randint(2, 4)]
+    elif cls == "h3":
+        shape = [2, 2, 2]
+    else:
+        shape = [rng.randint(2, 3), rng.randint(2, 3)]
+    n = int(np.prod(shape))
+    q = 4 if cls == "h1f" else 1                    # h1f: multiples of 1/4
+
+    def num(lo, hi):
+        v = rng.randint(lo * q, hi * q)
+        return v if q == 1 else v / q
+    freq = [num(0, 5) for _ in range(n)]
+    for i in rng.sample(range(n), 2):               # at least two cells with contents
+        if freq[i] == 0:
+            freq[i] = num(1, 5)
+    builds = GATED_BUILDS * 3 + (FREE_BUILDS if cls in NEG_FILLABLE else [])
+    spec = {"cls": cls, "shape": shape, "freq": freq, "build": build or rng.choice(builds)}
+    b = spec["build"]
+    hit = sorted(rng.sample(range(n), rng.randint(1, max(1, n // 2))))      # the cells that become negative in a mixed build
+    if rng.random() < 0.25:
+        hit = list(range(n))
+    if b in ("imul", "div_neg"):
+        spec["k"] = rng.choice([1, 2, 3]) if b == "imul" else rng.choice([1, 2, 4])
+    elif b == "arr_add":
+        spec["arr"] = [-(freq[i] + num(1, 3)) if i in hit else num(0, 2) for i in range(n)]
+    elif b == "arr_sub":
+        spec["arr"] = [freq[i] + num(1, 3) if i in hit else -num(0, 2) for i in range(n)]
+    elif b in ("setter", "ctor"):
+        spec["arr"] = [-num(1, 4) if i in hit else num(0, 4) for i in range(n)]
+    elif b in FREE_BUILDS:
+        cell = rng.choice([i for i in range(n) if freq[i] > 0])
+        w = 1 if q == 1 else rng.choice([1, 0.5, 0.25])
+        spec.update(cell=cell, w=w, times=int(freq[cell] / w) + rng.randint(1, 3))
+    if cls in NEG_ADAPTIVE:
+        oshape = [rng.randint(1, 3) for _ in shape]
+        shift = [rng.choice([-3, -2, -1, 1, 2, 3, 4, 5])] + [rng.randint(-2, 3) for _ in shape[1:]]
+        ofreq = [rng.randint(0, 4) for _ in range(int(np.prod(oshape)))]
+        ofreq[rng.randrange(len(ofreq))] = rng.randint(1, 4)
+        spec.update(oshape=oshape, shift=shift, ofreq=ofreq)
+    return spec
+
+
+ADD_TERMS = [["a", "neg", "neg"], ["neg", "a", "neg"], ["neg", "neg"], ["a", "neg"], ["neg", "a"], ["neg", "neg", "a", "a", "a"],
+             ["a", "a", "neg", "neg", "neg"], ["neg", "a", "a"]]
+ADD_TERMS_REGRID = [["a", "oneg"], ["oneg", "a"], ["neg", "other"], ["other", "neg"], ["a", "other", "oneg", "oneg"],
+                    ["a", "oneg", "other"], ["other", "a", "neg", "neg"]]
+
+
+def gen_negop(rng, name, spec, kind=None):
+    """one operation on slot `name`; its "g" is decided by exact arithmetic on the spec"""
+    for _ in range(8):
+        how = _gen_negop(rng, name, spec, kind)
+        e = expect_negop(how, spec_operands(spec))["neg"]
+        if e is not None:       # (None: e.g. normalize() of contents whose total is 0 -- not generated)
+            how["g"] = e
+            return how
+    return {"slot": name, "op": "copy", "g": False}
+
+
+def mk_item(name, spec):
+    """building a slot is itself a gated operation (adaptive classes always: `oneg = other * (-1)`), except by fill()"""
+    return ["arith", {"mk": name, "g": spec["build"] in GATED_BUILDS or spec["cls"] in NEG_ADAPTIVE}]
+
+
+def _gen_negop(rng, name, spec, kind=None):
+    cls = spec["cls"]
+    kinds = ["add"] * 6 + ["sub"] * 3 + ["mul"] * 3 + ["div"] * 2 + ["normalize", "setter", "ctor"]
+    if ENABLE_FILL_NEGATIVE_WEIGHT and cls in NEG_FILLABLE:
+        kinds.append("fill_neg")
+    op = kind or rng.choice(kinds)
+    how = {"slot": name, "op": op}
+    if op == "add":
+        regrid = cls in NEG_ADAPTIVE and rng.random() < 0.5
+        how["terms"] = list(rng.choice(ADD_TERMS_REGRID if regrid else ADD_TERMS))
+        hows = ["binary", "binary", "iadd", "iadd", "sum"] + (["coll"] if cls in NEG_CLASSES_1D and not regrid else [])
+        how["how"] = rng.choice(hows)
+    elif op == "sub":
+        how["x"], how["y"] = rng.choice([("a", "a2"), ("a", "a2"), ("neg", "a"), ("a", "neg"), ("neg", "neg"), ("a2", "a"), ("neg", "a2")])
+        how["how"] = rng.choice(["binary", "isub"])
+    elif op == "mul":
+        how["x"] = rng.choice(["neg", "neg", "neg", "a"])
+        how["c"] = rng.choice([2, 3, 0.5, 1, -1, -2, -0.5, 0])
+        how["how"] = rng.choice(["mul", "rmul", "imul"])
+    elif op == "div":
+        how["x"] = rng.choice(["neg", "neg", "neg", "a"])
+        how["c"] = rng.choice([2, 4, 0.5, 1, -1, -2])
+        how["how"] = rng.choice(["div", "idiv"])
+    elif op == "normalize":
+        how.update(x="neg", inplace=rng.random() < 0.5, percent=rng.random() < 0.3)
+    elif op == "fill_neg":
+        cell = rng.choice([i for i, v in enumerate(spec["freq"]) if v > 0])
+        how.update(cell=cell, w=1, times=int(spec["freq"][cell]) + rng.randint(1, 2))
+    elif op in ("merge_bins", "projection"):
+        how["axis"] = rng.randrange(len(spec["shape"]))
+    return how
+
+
+def gen_rearr(rng, name, spec):
+    nd = len(spec["shape"])
+    ops = ["copy", "set_dtype", "merge_bins", "slice", "index"] + (["projection"] if nd > 1 else []) + (["transpose"] if spec["cls"] in ("h2", "ad2") else [])
+    return gen_negop(rng, name, spec, rng.choice(ops))
+
+
+def gen_gated(rng, name, spec, kind=None):
+    """an operation that produces negative contents (a few tries; the last one is taken as it is)"""
+    for _ in range(12):
+        how = gen_negop(rng, name, spec, kind)
+        if how["g"]:
+            break
+    return how
+
+
 def NOGATE():
     return None
 
 
-def make_env():
+def make_env(specs=None):
     """the objects one run shares between all its threads / tasks"""
     from physt.config import config
 
@@ -208,7 +769,7 @@ def make_env():
     def f_off(cont):
         return cont()
 
-    return {"fns": {"on": f_on, "off": f_off}, "cms": {}, "gens": {}, "probes": [], "log": []}
+    return {"fns": {"on": f_on, "off": f_off}, "cms": {}, "gens": {}, "probes": [], "log": [], "specs": specs or {}, "slots": {}}
 
 
 def gen_block(v):
@@ -289,7 +850,7 @@ def exec_sync(items, gate, obs, tid, env):
         elif it[0] == "read":
             gate(); obs.append((tid, {"value": bool(config.free_arithmetics)}))
         elif it[0] == "arith":
-            gate(); obs.append((tid, {"accepted": do_arith(it[1])}))
+            gate(); obs.append((tid, arith_obs(it[1], env)))
         elif it[0] == "reenter":
             gate(); probe(env, it[1], tid); obs.append((tid, {"value": bool(config.free_arithmetics)}))
         elif it[0] == "gen_open":
@@ -449,7 +1010,7 @@ def run_tasks(programs, order, parent_of, env=None):
                 elif it[0] == "read":
                     await gate(t); obs.append((t, {"value": bool(config.free_arithmetics)}))
                 elif it[0] == "arith":
-                    await gate(t); obs.append((t, {"accepted": do_arith(it[1])}))
+                    await gate(t); obs.append((t, arith_obs(it[1], env)))
                 elif it[0] == "spawn":
                     await gate(t)
                     tasks[it[2]] = asyncio.create_task(body(it[2]))
@@ -620,10 +1181,11 @@ def interleavings(n0, n1):
 class C19:
     ID = "C19"
     GEN_TIE = ["config"]     # definitions regenerated from physt/config.py (harness/gen_tie.py)
-    N_QUICK = 220
-    N_THOROUGH = 3600
+    N_QUICK = 256
+    N_THOROUGH = 4200
     N_SEARCH = 150
-    BASE_SHARE = 0.70        # the share of the original stream of random programs (>= 150 of the 220 quick cases)
+    BASE_SHARE = 0.60        # the share of the original stream of random programs (>= 150 of the 256 quick cases)
+    NEG_SHARE = 0.14         # stream neg_state (~36 of the 256 quick cases); the four usage-form streams keep their ~66
     RULE = ("programs of set / read / arithmetic-with-array / negative-contents / nested `with enable_free_arithmetics(v)` blocks "
             "(depth <= 4, bodies that raise at any depth) for 1-3 real threads or asyncio tasks (children spawned mid-program), run "
             "under a generated interleaving of their atomic steps (threads stepped by semaphores, tasks by events); every read and "
@@ -634,22 +1196,42 @@ class C19:
             "exc_depth = nested blocks of mixed forms (with / stored manager / ExitStack / decorator / generator) left by Boom or by "
             "an operation physt refuses in every mode, at a chosen depth, then reads and gated operations outside; stored_cm = a "
             "kept manager object entered once and tried again (nested, afterwards, from other threads / tasks); generator = "
-            "(async) generators that enter the block and yield, finished by their own context or touched by another one. "
+            "(async) generators that enter the block and yield, finished by their own context or touched by another one; "
+            "neg_state = operands WITH NEGATIVE CONTENTS are built while the switch is on (inside a block of any form, or under the "
+            "setting; by h * (-1), h - 2h, *= / by a negative number, array addition / subtraction, the frequencies setter, the "
+            "constructor, fill with negative weights) for 1-D int / float, 2-D, 3-D, radial, polar and adaptive 1-D / 2-D histograms; "
+            "the block is left (normally, by an exception, through a nested disabled block) and every operation that writes contents "
+            "is applied with the switch off: a + neg, neg + a, +=, sum(), HistogramCollection.sum(), addition with adaptive "
+            "re-binning, - and -=, * and / by positive and negative numbers (also r-mul, in place), normalize, the frequencies setter, "
+            "the constructor; each is refused iff its exact result (Fraction arithmetic on the contents reported) has a negative "
+            "content, accepted inside a block, leaves its operands alone, and a refused in-place form leaves its target alone; "
+            "re-arrangements (copy, set_dtype, merge_bins, projection, slices, index, T) are recorded, accepted inside a block, not "
+            "judged outside; a second context with the switch on does the same operations meanwhile (all accepted). "
             "Thorough: all interleavings of small programs. "
             "non-trivial = at least two contexts with different values alive at once; distinct = hash of programs + schedule")
     ASSUMPTIONS = ["CPython's contextvars / threading / asyncio semantics (a new thread starts with an empty context, a task with a copy)",
                    "the GIL-level atomicity of a single set / reset is not explored: steps are scheduled deterministically",
                    "a block entered by a generator that another context then resumes / closes is outside well-bracketed scoping: only "
-                   "the OTHER context's own value is pinned there (unchanged), the opener's value is not judged afterwards"]
+                   "the OTHER context's own value is pinned there (unchanged), the opener's value is not judged afterwards",
+                   "a chain a + b + c, x += b; x += c and sum([..]) are sequences of separate additions, each with a result of its own "
+                   "(a negative partial sum must be refused outside a block); HistogramCollection.sum() is one operation (only its "
+                   "result is pinned)",
+                   "fill / fill_n with a negative weight outside a block is NOT generated (ENABLE_FILL_NEGATIVE_WEIGHT): the unchanged "
+                   "library accepts it and stores negative contents"]
     EXTRA_TRUST = ["the model cannot exhibit interpreter-level races; schedules are the interleavings of whole ContextVar operations",
                    "a call of a decorated function / an entered stored manager / ExitStack / generator block is presented to the model "
-                   "as the enter ... exit pair of the context that performs it"]
+                   "as the enter ... exit pair of the context that performs it",
+                   "an operation on kept operands whose exact result has a negative content is presented to the model as its `arith` "
+                   "(accepted iff the context's value is true); the other operations on kept operands are not steps of the model's "
+                   "machine and are left out of the comparison (oracle only)"]
 
     # ------------------------------------------------------------------ generation
     def gen_case(self, rng, k, tier):
         r = rng.random()
+        if self.BASE_SHARE <= r < self.BASE_SHARE + self.NEG_SHARE:
+            return self.gen_neg_state(rng)
         if r >= self.BASE_SHARE:
-            r = (r - self.BASE_SHARE) / (1 - self.BASE_SHARE)
+            r = (r - self.BASE_SHARE - self.NEG_SHARE) / (1 - self.BASE_SHARE - self.NEG_SHARE)
             if r < 0.34:
                 return self.gen_decorator(rng)
             if r < 0.56:
@@ -779,7 +1361,84 @@ class C19:
             programs[b] += [["gen_close", 0, rng.choice(["next", "close", "throw"])], ["read"], ["arith", rng.choice(GATED)]]
         return self.finish(rng, mode, programs, {}, stream="generator")
 
-    def finish(self, rng, mode, programs, parent_of, order=None, stream=None):
+    def gen_neg_state(self, rng):
+        """operands with negative contents are built while the switch is on (inside a block of any form, or under the setting),
+        the block is left -- normally, by an exception, through a nested disabled block -- and then every operation that
+        writes contents is applied to them with the switch off: the gate must sit in the OPERATIONS"""
+        mode = rng.choice(["single", "single", "single", "threads", "threads", "tasks"])
+        n = 1 if mode == "single" else 2
+        slots, programs = {}, {}
+        forms = ["with", "with", "with", "stack", "stored", "gen", "adec"] + (["dec"] if mode != "tasks" else [])
+        for t in range(n):
+            p = []
+            if rng.random() < 0.3:
+                p.append(["set", False])
+            if t == 1 and rng.random() < 0.45:
+                # a bystander that has the switch ON for itself and works with negative contents all the time, while the
+                # other context applies the same operations with the switch off
+                name = f"t{t}s0"
+                spec = slots[name] = gen_spec(rng)
+                p = [["set", True], mk_item(name, spec), ["read"]]
+                for _ in range(rng.randint(2, 4)):
+                    p.append(["arith", gen_gated(rng, name, spec) if rng.random() < 0.8 else gen_rearr(rng, name, spec)])
+                if rng.random() < 0.5:
+                    p.append(blk(False, [["arith", gen_gated(rng, name, spec)], ["read"]], False))
+                    p.append(["arith", gen_gated(rng, name, spec)])
+                programs[t] = p
+                continue
+            for j in range(rng.randint(1, 2)):
+                name = f"t{t}s{j}"
+                spec = slots[name] = gen_spec(rng)
+                if rng.random() < 0.15:
+                    # the state is reached under the SETTING instead of a block
+                    p += [["set", True], mk_item(name, spec)]
+                    if rng.random() < 0.5:
+                        p.append(["arith", gen_gated(rng, name, spec)])
+                    p.append(["set", False])
+                else:
+                    form = rng.choice(forms)
+                    if form == "stored":
+                        form = f"stored:{10 * t + j}"
+                    elif form == "gen":
+                        form = "gen:" + rng.choice(["next", "close", "throw"])
+                    elif form in ("dec", "adec"):
+                        form += ":on"
+                    body = [["read"]] if rng.random() < 0.3 else []
+                    body.append(mk_item(name, spec))
+                    if rng.random() < 0.4:
+                        body.append(["arith", gen_gated(rng, name, spec)])                  # accepted inside
+                    if rng.random() < 0.15:
+                        body.append(["arith", gen_rearr(rng, name, spec)])                  # re-arranged inside: accepted as well
+                    if rng.random() < 0.25:
+                        # a disabled block nested in the enabled one: the operands exist already, the gate is closed again
+                        inner = [["arith", gen_gated(rng, name, spec)]] + ([["read"]] if rng.random() < 0.5 else [])
+                        body.append(blk(False, inner, pick_raise(rng) if rng.random() < 0.2 else False))
+                        if not body[-1][3] and rng.random() < 0.5:
+                            body.append(["arith", gen_gated(rng, name, spec)])
+                    raises = pick_raise(rng) if rng.random() < 0.25 and not any(it[0] == "with" and it[3] for it in body) else False
+                    block = blk(True, body, raises, form)
+                    if rng.random() < 0.15:
+                        block = blk(rng.random() < 0.5, [block, ["read"]], False)           # the whole thing one level deeper
+                    p.append(block)
+                p.append(["read"])                                                           # False again
+                for _ in range(rng.randint(2, 4)):
+                    r = rng.random()
+                    if r < 0.72:
+                        p.append(["arith", gen_gated(rng, name, spec)])
+                    elif r < 0.86:
+                        p.append(["arith", gen_negop(rng, name, spec)])                      # whatever comes, valid results included
+                    else:
+                        p.append(["arith", gen_rearr(rng, name, spec)])
+                if rng.random() < 0.3:
+                    p.append(["read"])
+            programs[t] = p
+        if n == 2 and rng.random() < 0.25:
+            # operands built by the OTHER thread / task (or, if it has not got there yet, privately) used with the switch off
+            src = rng.choice(sorted(slots))
+            programs[rng.randrange(2)].append(["arith", gen_gated(rng, src, slots[src])])
+        return self.finish(rng, mode, programs, {}, stream="neg_state", slots=slots)
+
+    def finish(self, rng, mode, programs, parent_of, order=None, stream=None, slots=None):
         acts = {t: linearize_top(p) for t, p in programs.items()}
         if order is None:
             # a random interleaving that respects spawn order (and lets a generator be started before it is touched from outside)
@@ -810,7 +1469,7 @@ class C19:
         for t in order:
             for o in acts[t][pos[t]]:
                 e = {"t": t, "op": o["op"]}
-                for key in ("v", "child", "form", "src", "k"):
+                for key in ("v", "child", "form", "src", "k", "what"):
                     if key in o:
                         e[key] = o[key]
                 sched.append(e)
@@ -818,9 +1477,13 @@ class C19:
         tags = ["mode:" + mode, f"threads:{len(programs)}"]
         if stream:
             tags.append("stream:" + stream)
-        return {"kind": "config", "mode": mode, "default": False,
+        case = {"kind": "config", "mode": mode, "default": False,
                 "programs": {str(t): p for t, p in programs.items()}, "parent_of": {str(k): v for k, v in parent_of.items()},
                 "order": order, "sched": sched, "tags": tags}
+        if slots:
+            used = {it_how.get("mk", it_how.get("slot")) for p in programs.values() for it_how in _dict_hows(p)}
+            case["slots"] = {k: v for k, v in slots.items() if k in used}
+        return case
 
     def exhaustive_cases(self, tier):
         import random
@@ -852,6 +1515,43 @@ class C19:
                "sched": [{"t": 0, "op": "read"}, {"t": 0, "op": "arith"}, {"t": 0, "op": "enter", "v": False}, {"t": 0, "op": "read"},
                          {"t": 0, "op": "exit"}, {"t": 0, "op": "read"}], "tags": ["env_default"]}
         yield from self.exhaustive_forms(tier, rng)
+        yield from self.exhaustive_neg_ops(tier, rng)
+
+    def exhaustive_neg_ops(self, tier, rng):
+        """every class x every content-writing operation that yields negative contents: accepted inside the block in which the
+        operands are built, refused after the block has been left (one case each; thorough: three ways of building `neg`)"""
+        import random
+        templates = [{"op": "add", "terms": t, "how": h} for t, h in
+                     [(["a", "neg", "neg"], "binary"), (["a", "neg", "neg"], "iadd"), (["a", "neg", "neg"], "sum"), (["a", "neg", "neg"], "coll"),
+                      (["neg", "a", "neg"], "binary"), (["neg", "neg"], "iadd"), (["neg", "neg"], "sum"),
+                      (["a", "oneg"], "binary"), (["a", "oneg"], "iadd"), (["a", "oneg"], "sum"), (["oneg", "a"], "binary"),
+                      (["neg", "other"], "binary"), (["other", "neg"], "iadd")]]
+        templates += [{"op": "sub", "x": x, "y": y, "how": h} for x, y, h in [("a", "a2", "binary"), ("a", "a2", "isub"), ("neg", "a", "binary")]]
+        templates += [{"op": "mul", "x": x, "c": c, "how": h} for x, c, h in [("neg", 2, "mul"), ("neg", 2, "rmul"), ("neg", 3, "imul"), ("a", -1, "imul")]]
+        templates += [{"op": "div", "x": "neg", "c": 2, "how": h} for h in ("div", "idiv")]
+        templates += [{"op": "normalize", "x": "neg", "inplace": i, "percent": False} for i in (False, True)]
+        templates += [{"op": "setter"}, {"op": "ctor"}]
+        builds = ["mul_m1", "arr_add", "setter"] if tier == "thorough" else ["arr_add"]
+        forms = ["with", "stack", "stored:0", "gen:next", "adec:on", "dec:on"]
+        k = 0
+        for cls in ["h1", "h1f", "h2", "h3", "radial", "polar", "ad1", "ad2"]:
+            for build in builds:
+                spec = gen_spec(random.Random(f"negx:{cls}:{build}"), cls, build)
+                operands = spec_operands(spec)
+                for tpl in templates:
+                    if any(n in ("other", "oneg") for n in tpl.get("terms", [])) and cls not in NEG_ADAPTIVE:
+                        continue
+                    if tpl.get("how") == "coll" and cls not in NEG_CLASSES_1D:
+                        continue
+                    how = dict(tpl, slot="s")
+                    if expect_negop(how, operands)["neg"] is not True:
+                        continue
+                    how["g"] = True
+                    k += 1
+                    prog = {0: [blk(True, [mk_item("s", spec), ["arith", dict(how)]], False, forms[k % len(forms)]), ["read"], ["arith", dict(how)]]}
+                    c = self.finish(rng, "single", prog, {}, stream="neg_state", slots={"s": spec})
+                    c["tags"].append("exhaustive_neg_ops")
+                    yield c
 
     def exhaustive_forms(self, tier, rng):
         """small complete sub-spaces of the usage forms"""
@@ -913,24 +1613,29 @@ class C19:
                 raise RuntimeError("env subprocess failed: " + p.stderr[-800:])
             return {"outs": [{"t": 0, "obs": o} for o in json.loads(p.stdout.strip().splitlines()[-1])], "solo": {}, "log": []}
         runner = run_tasks if case["mode"] == "tasks" else run_threads
-        env = make_env()
+        env = make_env(case.get("slots"))
         obs = runner(programs, case["order"], parent_of, env)
         outs = [{"t": t, "obs": o} for t, o in obs]
         solo = {}
         log = list(env["log"])
         for t, p in programs.items():
             if parent_of.get(t) is None and not any(it[0] == "spawn" for it in p):
-                senv = make_env()
+                senv = make_env(case.get("slots"))
                 so = run_threads({t: p}, [t] * len(linearize_top(p)), {}, senv)
                 solo[str(t)] = [o for _, o in so]
                 log += [["solo"] + x for x in senv["log"] if x[0] == "unexpected"]
         return {"outs": outs, "solo": solo, "log": log, "probes": env["probes"]}
 
     def model_case(self, case, io):
-        return {"kind": "config", "default": case["default"], "sched": case["sched"]}
+        # `free` steps (operations on kept operands that produce no negative contents) are not operations of the model's machine:
+        # they are left out on both sides; the gated ones are its `arith` (accepted iff the context's value is true)
+        return {"kind": "config", "default": case["default"], "sched": [e for e in case["sched"] if e["op"] != "free"]}
 
     def diff(self, case, model_ok, io):
-        return diff_outputs(model_ok, io["outs"], None, None)
+        outs = io["outs"]
+        if len(outs) == len(case["sched"]):
+            outs = [o for e, o in zip(case["sched"], outs) if e["op"] != "free"]
+        return diff_outputs(model_ok, outs, None, None)
 
     # ------------------------------------------------------------------ oracle
     def oracle(self, case, io):
@@ -982,12 +1687,16 @@ class C19:
                     opener[e["k"]] = t
             elif op == "exit":
                 known[t] = stack[t].pop() if stack[t] else None
-            elif op == "arith":
+            elif op in ("arith", "free"):
                 if not isinstance(o, dict) or "accepted" not in o:
                     fails.append(f"trace_shape: thread {t}: an operation observed {o}")
                     continue
-                if known[t] is not None and o["accepted"] != known[t]:
-                    fails.append(f"gate: thread {t}: operand accepted={o['accepted']} while free_arithmetics is {known[t]}")
+                gated = op == "arith"
+                if isinstance(o.get("_d"), dict) and "how" in o["_d"]:
+                    gated = self.negop_clauses(t, o, known[t], gated, fails)
+                if gated and known[t] is not None and o["accepted"] != known[t]:
+                    fails.append(f"gate: thread {t}: operand accepted={o['accepted']} while free_arithmetics is {known[t]}"
+                                 + (f" ({e['what']})" if "what" in e else ""))
             elif op == "spawn_task":
                 known[e["child"]] = known[t]
                 stack[e["child"]] = []
@@ -1003,7 +1712,52 @@ class C19:
                 fails.append("env_default: PHYST_FREE_ARITHMETICS=1 is not the default")
         return fails[:6]
 
+    def negop_clauses(self, t, o, known, gated, fails):
+        """an operation on operands with negative contents built earlier, while the switch was on.  Returns whether the general
+        gate clause (accepted iff the switch is on) applies to the step: it does when the contents the implementation reported
+        for the operands make the (partial) result negative."""
+        d = o["_d"]
+        how = d["how"]
+        opname = how["op"]
+        text = f"{d['cls']}: {describe_negop(how)}"
+        ops = snap_operands(d["before"])
+
+        def nums(snap):
+            return "[" + ", ".join(snap["f"]) + "]"
+        # operands are values: no operation may change them (in-place forms work on a copy made by the harness)
+        for k in sorted(d["before"]):
+            if d["after"].get(k) != d["before"][k]:
+                fails.append(f"operand_changed: thread {t}: `{text}` changed its operand `{k}`: contents {nums(d['before'][k])} -> "
+                             f"{nums(d['after'][k])}, errors2 [{', '.join(d['before'][k]['e2'])}] -> [{', '.join(d['after'][k]['e2'])}]")
+        ex = expect_negop(how, ops)
+        if not any(v < 0 for v in ops["neg"]["f"]):
+            return False            # (the operand carries no negative content: nothing of this class to judge)
+        res = d.get("result")
+        if known is False and o["accepted"] and opname in GATED_NEGOPS and res is not None and any(fr(v) < 0 for v in res["f"]):
+            fails.append(f"accepted_invalid: thread {t}: `{text}` was accepted OUTSIDE any free-arithmetics context "
+                         f"(config.free_arithmetics reads {d['flag']}) and produced negative contents {nums(res)}; "
+                         f"a = {nums(d['before']['a'])}, neg = {nums(d['before']['neg'])} (built while the switch was on)"
+                         + (f", other = {nums(d['before']['other'])} at offset {ops['other']['lo']}" if "other" in d["before"] and
+                            any(n in ("other", "oneg") for n in how.get("terms", [])) else ""))
+        elif known is False and o["accepted"] and opname == "add" and ex["neg"] is True and how["how"] != "coll":
+            fails.append(f"accepted_invalid: thread {t}: `{text}` was accepted OUTSIDE any free-arithmetics context "
+                         f"(config.free_arithmetics reads {d['flag']}) although the sum of its first terms, itself the result of an "
+                         f"addition, has negative contents [{', '.join(ex['partial'])}]; a = {nums(d['before']['a'])}, "
+                         f"neg = {nums(d['before']['neg'])} (built while the switch was on); the result is {nums(res) if res else None}")
+        if known is True and not o["accepted"] and opname in REARR_NEGOPS:
+            fails.append(f"gate: thread {t}: `{text}` of a histogram with negative contents {nums(d['before']['neg'])} refused "
+                         f"({d.get('refusal')}) while free_arithmetics is True")
+        if not o["accepted"] and "target" in d and ex["keep"] is not None:
+            got = op_cells(snap_operands({"a": d["before"]["a"], "x": d["target"]})["x"])
+            if got != ex["keep"]:
+                fails.append(f"refused_but_changed: thread {t}: `{text}` was refused ({d.get('refusal')}) but its target x now holds "
+                             f"{nums(d['target'])} instead of [{', '.join(fs(v) for v in ex['keep'].values())}]")
+        return ex["neg"] is True and opname in GATED_NEGOPS
+
     def nontrivial(self, case, io):
+        if any(e.get("what") not in (None, "mk") and e["op"] == "arith" and isinstance(o["obs"], dict) and o["obs"].get("accepted") is False
+               for e, o in zip(case["sched"], io["outs"])):
+            return True     # an operation on negative contents (built while the switch was on) refused where it is off
         vals = {}
         for e, o in zip(case["sched"], io["outs"]):
             if e["op"] == "read" and isinstance(o["obs"], dict) and "value" in o["obs"]:
@@ -1018,6 +1772,14 @@ class C19:
             out.append("exception_leaves_block")
         for p in io.get("probes", []) if isinstance(io, dict) else []:
             out.append("reentry:" + ("entered" if p["entered"] else "refused"))
+        if case.get("slots"):
+            out += sorted({"negcls:" + v["cls"] for v in case["slots"].values()} | {"negbuild:" + v["build"] for v in case["slots"].values()})
+            for e, o in zip(case["sched"], io.get("outs", []) if isinstance(io, dict) else []):
+                d = o["obs"].get("_d") if isinstance(o["obs"], dict) else None
+                if not d or "how" not in d:
+                    continue
+                kind = "rearr" if d["how"]["op"] in REARR_NEGOPS else ("negop" if e["op"] == "arith" else "negop_valid_result")
+                out.append(f"{kind}:{e['what']}:switch_{'on' if d['flag'] else 'off'}:{'accepted' if o['obs']['accepted'] else 'refused'}")
         return out
 
     def matches_known(self, finding, case):
@@ -1027,7 +1789,7 @@ class C19:
         import random
         parent_of = {int(k): v for k, v in case["parent_of"].items()}
         stream = next((t[7:] for t in case.get("tags", []) if t.startswith("stream:")), None)
-        return self.finish(random.Random(seed), case["mode"], programs, parent_of, stream=stream)
+        return self.finish(random.Random(seed), case["mode"], programs, parent_of, stream=stream, slots=case.get("slots"))
 
     def neighbours(self, case):
         # the same programs under other interleavings
@@ -1036,13 +1798,64 @@ class C19:
         programs = {int(t): p for t, p in case["programs"].items()}
         for s in range(2, 8):
             yield self.rebuilt(case, copy.deepcopy(programs), seed=s)
+        if case.get("slots"):
+            # the same histories with every operation on kept operands replaced by another one that produces negative contents
+            import random
+            for s in range(6):
+                rng = random.Random(f"negnb:{s}")
+                q = copy.deepcopy(programs)
+                for p in q.values():
+                    for how in _dict_hows(p):
+                        if "slot" in how and how["slot"] in case["slots"]:
+                            new = gen_gated(rng, how["slot"], case["slots"][how["slot"]])
+                            how.clear()
+                            how.update(new)
+                yield self.rebuilt(case, q, seed=s + 2)
 
     def shrink_candidates(self, case):
         # every candidate is strictly smaller than the case (a candidate equal to it would keep the shrinker busy for its whole budget)
         same = json.dumps(case["programs"], sort_keys=True)
+
+        def unbuilt(c):
+            """slots used by a context that never builds them (the harness then builds them privately)"""
+            out = set()
+            for t, p in c["programs"].items():
+                hows = list(_dict_hows(p))
+                out |= {(t, h["slot"]) for h in hows if "slot" in h} - {(t, h["mk"]) for h in hows if "mk" in h}
+            return out
+        allowed = unbuilt(case)
         for c in self._shrink_candidates(case):
-            if json.dumps(c["programs"], sort_keys=True) != same:
+            if json.dumps(c["programs"], sort_keys=True) != same and unbuilt(c) <= allowed:
+                # (a smaller case keeps the step -- and so the block -- in which the operands of a used slot are built)
                 yield c
+        if case.get("slots"):
+            yield from self._shrink_slots(case)
+
+    def _shrink_slots(self, case):
+        """smaller operands: a plain 1-D integer histogram, `neg = a * (-1)`, fewer terms"""
+        programs = {int(t): p for t, p in case["programs"].items()}
+        for name, spec in case["slots"].items():
+            uses = [h for p in programs.values() for h in _dict_hows(p) if h.get("slot") == name]
+            simple = [{"cls": "h1", "shape": [2], "freq": [1, 2], "build": "mul_m1"}]
+            if spec["build"] != "mul_m1" and spec["build"] in GATED_BUILDS:
+                simple.append({k: v for k, v in spec.items() if k not in ("arr", "k")} | {"build": "mul_m1"})
+            for new in simple:
+                if new == spec or any(n in ("other", "oneg") for h in uses for n in h.get("terms", [])) and new["cls"] not in NEG_ADAPTIVE:
+                    continue
+                if any(h["op"] in ("projection", "transpose", "fill_neg") or h.get("axis") for h in uses) and new["shape"] != spec["shape"]:
+                    continue
+                operands = spec_operands(new)
+                if any((expect_negop(h, operands)["neg"] is True) != bool(h.get("g")) for h in uses):
+                    continue        # the operations would no longer be what the schedule says they are
+                c = self.rebuilt(case, copy.deepcopy(programs))
+                c["slots"] = dict(c.get("slots", {}), **{name: new})
+                for p in c["programs"].values():
+                    for h in _dict_hows(p):
+                        if h.get("mk") == name:
+                            h["g"] = mk_item(name, new)[1]["g"]
+                c2 = self.rebuilt(c, {int(t): p for t, p in c["programs"].items()})
+                c2["slots"] = c["slots"]
+                yield c2
 
     def _shrink_candidates(self, case):
         if case["mode"] == "env":
